@@ -41,6 +41,23 @@ static Obs observe(const TimeZone& tz, acetime_t t) {
   return o;
 }
 
+// the same three accessors, asked in a chosen order (which of them is the first call on a zone after another zone used a
+// shared processor matters)
+static Obs observe_order(const TimeZone& tz, acetime_t t, int order) {
+  nprobe++;
+  Obs o;
+  TimeOffset u, d; const char* a = nullptr;
+  for (int k = 0; k < 3; k++) {
+    int which = (order + k) % 3;
+    if (which == 0) u = tz.getUtcOffset(t);
+    else if (which == 1) d = tz.getDeltaOffset(t);
+    else { a = tz.getAbbrev(t); o.abbr = a ? a : "<null>"; }     // (the abbreviation buffer belongs to the processor: copy at once)
+  }
+  o.utoff = u.isError() ? 999999 : u.toMinutes() * 60;
+  o.delta = d.isError() ? 999999 : d.toMinutes() * 60;
+  return o;
+}
+
 struct Piece { long t; Obs o; };
 
 static void emit_pieces(const std::vector<Piece>& ps, bool flag_only, std::string& out) {
@@ -166,7 +183,7 @@ static int cfgscan(const ZI* const* registry, int n, int i0, int i1, long grid, 
       TimeZone ref = TimeZone::forZoneInfo(zi, &own[jj]);
       Obs want = observe(ref, (acetime_t) t);
       TimeZone tz = r == 0 ? mgr.createForZoneInfo(zi) : TimeZone::forZoneInfo(zi, &shared);
-      Obs got = observe(tz, (acetime_t) t);
+      Obs got = observe_order(tz, (acetime_t) t, (int) ((j + t / grid) % 3));
       nq++;
       if (got != want) {
         if (nbad < 8) {
